@@ -10,6 +10,8 @@
        busy : "idle" | "running" | "queued"             state when the end begins: all tasks done / every worker inside
                                                         a task / additionally tasks waiting in the call queue
        end  : how it ends (Ends below)
+       ctx  : the start method of the workers: "loky" (default) | "spawn" | "forkserver" | "fork" (legal, discouraged: the
+              worker is a copy of the parent, module state and held locks included)
        sig  : for end = "crash", the signal that kills one worker ("KILL" | "TERM" | "SEGV" | "RT": a real-time signal, which has
               no name in signal.Signals); "none" otherwise
    and goes through  Create -> Load -> End -> Join -> Release, each step acquiring or releasing the resources the code
@@ -32,6 +34,7 @@ Busys == {"idle", "running", "queued"}
 Ends  == {"wait", "ctx", "nowait", "kill", "crash", "timeout", "cancel", "resize", "replace_kill"}
 Killing == {"kill", "crash", "replace_kill"}          \* ends in which workers die without reading the call queue
 Sigs  == {"KILL", "TERM", "SEGV", "RT"}
+Ctxs  == {"loky", "spawn", "forkserver", "fork"}
 
 Valid(l) == /\ (l.end = "timeout" => l.busy = "idle")
             /\ (l.end = "cancel" => l.busy = "queued")
@@ -39,11 +42,13 @@ Valid(l) == /\ (l.end = "timeout" => l.busy = "idle")
             /\ (l.end = "replace_kill" => l.pool = "reusable")
             /\ (l.end = "crash" <=> l.sig # "none")
             /\ (l.load = "spawnfail" => l.busy = "idle" /\ l.end \in {"wait", "ctx", "nowait", "kill"})
-Lives == {l \in [pool : Pools, load : Loads, busy : Busys, end : Ends, sig : Sigs \cup {"none"}] : Valid(l)}
+            \* the other start methods: plain executors with small tasks, ended gracefully, by force or by idle time-outs
+            /\ (l.ctx # "loky" => l.pool = "plain" /\ l.load = "small" /\ l.end \in {"wait", "kill", "timeout"})
+Lives == {l \in [pool : Pools, load : Loads, busy : Busys, end : Ends, sig : Sigs \cup {"none"}, ctx : Ctxs] : Valid(l)}
 
 VARIABLES hist, phase, cur, ledger, feederBlocked
 vars == <<hist, phase, cur, ledger, feederBlocked>>
-NoLife == [pool |-> "none", load |-> "none", busy |-> "none", end |-> "none", sig |-> "none"]
+NoLife == [pool |-> "none", load |-> "none", busy |-> "none", end |-> "none", sig |-> "none", ctx |-> "none"]
 
 Init == hist = <<>> /\ phase = "idle" /\ cur = NoLife /\ ledger = {} /\ feederBlocked = FALSE
 
